@@ -104,6 +104,28 @@ def t_nested(m, d, wd):
     return M, [("in_", "in", inner, {"x": d}), ("arr", "arr", arr, [d, 0])]
 
 
+def t_class_default(m, d1, d2, wd):
+    """model class WITH its own class-level default; supplied values (incl. {}) must win"""
+    from vf.common import Object, Property, Integer
+
+    kw = (lambda d: {"default": d}) if wd else (lambda d: {})
+    e1 = lambda: Integer(minimum=m, **kw(d1))
+    ckw = {"default": {"a": d2, "b": d2}} if wd else {}
+    M = Object.inline("M", properties={"a": Property(e1()), "b_": Property(Integer(), source="b")}, **ckw)
+    return M, [("a", "a", e1, d1)]
+
+
+def t_nested_class_default(m, d1, d2, wd):
+    from vf.common import Object, Property, Integer
+
+    def inner():
+        kw = {"default": {"x": d2}} if wd else {}
+        return Object.inline("Inner", properties={"x": Property(Integer(minimum=m, **({"default": d1} if wd else {})))}, **kw)
+
+    M = Object.inline("Outer", properties={"in_": Property(inner(), source="in")})
+    return M, [("in_", "in", inner, {"x": d2})]
+
+
 def t_string(n, s, wd):
     from vf.common import Element, Property, String
 
@@ -135,6 +157,8 @@ def harnesses(ctx) -> List[H]:
         ("class_untyped", "m: int, d1: int, d2: int", "t_class(m, d1, d2, wd, False)", DV, pre_ab),
         ("parsed_typed", "m: int, d1: int, d2: int", "t_parsed(m, d1, d2, wd, True)", DV, ["len(v) <= 2", "all(k in ('a', 'a b', 'x') for k in v)"]),
         ("parsed_untyped", "m: int, d1: int, d2: int", "t_parsed(m, d1, d2, wd, False)", DV, ["len(v) <= 2", "all(k in ('a', 'a b', 'x') for k in v)"]),
+        ("class_default", "m: int, d1: int, d2: int", "t_class_default(m, d1, d2, wd)", DV, pre_ab),
+        ("nested_class_default", "m: int, d1: int, d2: int", "t_nested_class_default(m, d1, d2, wd)", "Dict[str, Dict[str, int]]", ["len(v) <= 1", "all(k in ('in', 'x') for k in v)", "all(len(x) <= 1 and all(k in ('x', 'y') for k in x) for x in v.values())"]),
         ("nested", "m: int, d: int", "t_nested(m, d, wd)", "Dict[str, List[int]]", ["len(v) <= 1", "all(k in ('arr', 'x') for k in v)", "all(len(x) <= 2 for x in v.values())"]),
         ("string", "n: int, s: str", "t_string(n, s, wd)", "Dict[str, str]", ["len(v) <= 1", "all(k in ('class', 'x') for k in v)", "all(len(x) <= 2 for x in v.values())", "len(s) <= 2", "n >= 0"]),
     ]
